@@ -110,7 +110,7 @@ impl<'a, T: DeserializeOwned> ArgType<'a> for Serde<T> {
 macro_rules! common_forward {
     () => {
         forward_to_deserialize_any! {
-            bool u8 u16 u32 u64 i8 i16 i32 i64 f32 f64 char str string unit
+            bool u8 u16 u32 u64 u128 i8 i16 i32 i64 i128 f32 f64 char str string unit
             seq bytes byte_buf map
             tuple_struct struct tuple ignored_any identifier
         }
